@@ -158,10 +158,13 @@ func (m *c06VM) UTXOCall(c types.ContractRef, addr, token common.Address, input 
 	verifAssume(left <= gas)
 	c06VMRefund = verifNondetUint64()
 	verifAssume(c06VMRefund <= gas-left)
-	if verifNondetBool() {
-		return nil, left, 0, evm.ErrOutOfGas // its own state changes are reverted: none are visible
-	}
+	// as the real UTXOCall: snapshot, credit the value to the callee, run, and on failure go back to the snapshot
+	snapshot := m.st.Snapshot()
 	m.st.AddTokenBalance(addr, token, value)
+	if verifNondetBool() {
+		m.st.RevertToSnapshot(snapshot)
+		return nil, left, 0, evm.ErrOutOfGas
+	}
 	return nil, left, 0, nil
 }
 
@@ -224,5 +227,59 @@ func H_C06_contract_call_conserves_native_value() {
 		verifAssert(sAfter.Cmp(new(big.Int).Sub(bS, paid)) == 0, "failed-call-costs-the-sender-exactly-the-fee")
 	} else {
 		verifAssert(cAfter.Cmp(new(big.Int).Add(bC, value)) == 0, "contract-gets-exactly-the-value")
+	}
+}
+
+var c06Tok = common.Address{0x70}
+
+// The same for a token: a token transaction sending token value to an existing contract that has never
+// held that token. Token value is conserved between sender and contract, a failed call leaves the
+// contract without the token and the sender with all of it, and the fee is paid in the native coin.
+//verif:stub (*github.com/lianxiangcloud/linkchain/vm.VmFactory).GetRealVm => stub_c06_getvm
+//verif:opt unwind=12 budget_s=900 split=6
+func H_C06_token_call_conserves_token_value() {
+	st, err := state.New(common.Hash{}, &c06DB{main: &c06Trie{m: map[string][]byte{}}})
+	if err != nil {
+		panic(err)
+	}
+	bS, tS := c06Amount(), c06Amount()
+	nS := verifNondetUint64()
+	st.SetBalance(c06S, bS)
+	st.SetTokenBalance(c06S, c06Tok, tS)
+	st.SetNonce(c06S, nS)
+	st.SetBalance(c06C, big.NewInt(5)) // the contract exists and has never held the token
+	st.SetCode(c06C, []byte{0x60, 0x00})
+	value := []*big.Int{big.NewInt(0), big.NewInt(1), big.NewInt(1000)}[verifCase(3)]
+	price := big.NewInt([]int64{0, 3}[verifCase(2)])
+	gas := verifNondetUint64()
+	c06VMInst = &c06VM{st: st}
+	c06VMRefund = 0
+	cerrID = []byte{0x08, 0xc3, 0x79, 0xa0}
+	tx := &processTransaction{
+		Type: types.TxToken, Kind: types.AinAout, TokenAddress: c06Tok,
+		Inputs:  []txInput{{From: c06S, Value: value, Nonce: nS, Type: Ain}},
+		Outputs: []txOutput{{To: c06C, Amount: value, Type: Cout}},
+		Gas:     gas, GasPrice: price, InitialGas: gas, RefundAddr: c06S,
+		State: st, Hash: common.Hash{0x79}, Vmenv: &vm.VmFactory{},
+	}
+	_, vmerr, terr := tx.Transit()
+	verifReach("token-call-transited")
+	if terr != nil {
+		verifAssert(st.GetNonce(c06S) == nS && st.GetTokenBalance(c06C, c06Tok).Sign() == 0, "refused-token-call-does-not-execute")
+		return
+	}
+	verifReach("token-call-executed")
+	tSAfter, tCAfter := st.GetTokenBalance(c06S, c06Tok), st.GetTokenBalance(c06C, c06Tok)
+	verifAssert(new(big.Int).Add(tSAfter, tCAfter).Cmp(tS) == 0, "token-call-conserves-token-value")
+	verifAssert(tSAfter.Sign() >= 0 && tCAfter.Sign() >= 0, "token-call-leaves-no-negative-token-balance")
+	paid := new(big.Int).Mul(new(big.Int).SetUint64(gas-tx.Gas), price)
+	verifAssert(tx.Gas <= gas, "token-call-never-leaves-more-gas-than-given")
+	verifAssert(st.GetBalance(c06S).Cmp(new(big.Int).Sub(bS, paid)) == 0, "token-call-fee-is-paid-in-the-native-coin")
+	verifAssert(st.GetBalance(c06C).Cmp(big.NewInt(5)) == 0, "token-call-does-not-touch-the-contracts-native-balance")
+	if vmerr != nil {
+		verifReach("token-call-failed")
+		verifAssert(tCAfter.Sign() == 0 && tSAfter.Cmp(tS) == 0, "failed-token-call-moves-no-token")
+	} else {
+		verifAssert(tCAfter.Cmp(value) == 0, "contract-gets-exactly-the-token-value")
 	}
 }
